@@ -53,6 +53,15 @@ def check_schema(inp):
     o = obs.classes()[ver](s)
     fails = []
     pairs = inp.get("pairs") or [[False, False], [False, True], [True, False], [True, True]]
+    if not inp.get("pairs"):
+        # in which order the four documents are asked for, and which other accessors were called before, is a function of the case
+        h = runner.h64(s)
+        pairs = pairs[h % 4:] + pairs[:h % 4]
+        from . import c18
+        A = c18.accessors(ver)
+        names = sorted(n for n in A if not n.startswith("json"))
+        for i in range((h >> 4) % 3):
+            A[names[(h >> (8 + 8 * i)) % len(names)]](o)
     for sort, minimal in pairs:
         if True:
             doc = o.as_json(sort=sort, minimal=minimal)
